@@ -1533,21 +1533,14 @@ class Jump(BasicOperator):
             if vectors:
                 try:
                     if len(vectors) == 1:
-                        f = vectors[0]
-                        b = cls(f)
-
-                    elif len(vectors) == 2:
-                        f,g = vectors
-                        b = f*cls(g) + g*cls(f)
+                        b = cls(vectors[0])
 
                     else:
-                        left = vectors[0]
+                        # [f g] = {f} [g] + [f] {g}   (the jump is not a derivation)
+                        left  = vectors[0]
                         right = Mul(*vectors[1:])
 
-                        f_left  = cls(left, evaluate=True)
-                        f_right = cls(right, evaluate=True)
-
-                        b = left * f_right + f_left * right
+                        b = Average(left) * cls(right) + cls(left) * Average(right)
 
                 except:
                     b = cls(Mul(*vectors), evaluate=False)
@@ -1606,21 +1599,14 @@ class Average(BasicOperator):
             if vectors:
                 try:
                     if len(vectors) == 1:
-                        f = vectors[0]
-                        b = cls(f)
-
-                    elif len(vectors) == 2:
-                        f,g = vectors
-                        b = f*cls(g) + g*cls(f)
+                        b = cls(vectors[0])
 
                     else:
-                        left = vectors[0]
+                        # {f g} = {f} {g} + [f] [g] / 4
+                        left  = vectors[0]
                         right = Mul(*vectors[1:])
 
-                        f_left  = cls(left, evaluate=True)
-                        f_right = cls(right, evaluate=True)
-
-                        b = left * f_right + f_left * right
+                        b = cls(left) * cls(right) + Jump(left) * Jump(right) / 4
 
                 except:
                     b = cls(Mul(*vectors), evaluate=False)
@@ -1674,22 +1660,9 @@ class MinusInterfaceOperator(BasicOperator):
             b = S.One
             if vectors:
                 try:
-                    if len(vectors) == 1:
-                        f = vectors[0]
-                        b = cls(f)
-
-                    elif len(vectors) == 2:
-                        f,g = vectors
-                        b = f*cls(g) + g*cls(f)
-
-                    else:
-                        left = vectors[0]
-                        right = Mul(*vectors[1:])
-
-                        f_left  = cls(left, evaluate=True)
-                        f_right = cls(right, evaluate=True)
-
-                        b = left * f_right + f_left * right
+                    # the restriction to one side of a product is the product of
+                    # the restrictions (it is not a derivation)
+                    b = Mul(*[cls(v) for v in vectors])
 
                 except:
                     b = cls(Mul(*vectors), evaluate=False)
@@ -1769,22 +1742,9 @@ class PlusInterfaceOperator(BasicOperator):
             b = S.One
             if vectors:
                 try:
-                    if len(vectors) == 1:
-                        f = vectors[0]
-                        b = cls(f)
-
-                    elif len(vectors) == 2:
-                        f,g = vectors
-                        b = f*cls(g) + g*cls(f)
-
-                    else:
-                        left = vectors[0]
-                        right = Mul(*vectors[1:])
-
-                        f_left  = cls(left, evaluate=True)
-                        f_right = cls(right, evaluate=True)
-
-                        b = left * f_right + f_left * right
+                    # the restriction to one side of a product is the product of
+                    # the restrictions (it is not a derivation)
+                    b = Mul(*[cls(v) for v in vectors])
 
                 except:
                     b = cls(Mul(*vectors), evaluate=False)
